@@ -421,14 +421,9 @@ class C08(Check):
         def count(l):
             self.branch_counts[l] = self.branch_counts.get(l, 0) + 1
         mc = 8 if th else 5
-        bcases = branch_scope_cases(mc, count)
-        nb = (len(bcases) + 299) // 300
-        # chunks of <= 300 cases: lib/vf.py gives up on a stream with more than 400 crashing cases, and a broken
-        # prepend/append crashes most cases of this stream (each ends with an append and a prepend)
-        for i in range(nb):
-            out.append(Stream('branches-%02d' % i, bcases[i::nb], exhaustive=True,
-                              note='every owning state with capacity <= %d (size, head-room) and every attached state of length <= 4 '
-                                   '(front offset) x every operation with arguments on and one past each branch condition (part %d/%d)' % (mc, i + 1, nb)))
+        out.append(Stream('branches', branch_scope_cases(mc, count), exhaustive=True,
+                          note='every owning state with capacity <= %d (size, head-room) and every attached state of length <= 4 '
+                               '(front offset) x every operation with arguments on and one past each branch condition' % mc))
         out.append(Stream('scope2', small_scope_cases(2, True), exhaustive=True,
                           note='every history of 2 operations over a 36-operation alphabet (incl. removeFront/removeBack(2^64-1)) after a fixed prologue'))
         if th:
@@ -437,7 +432,18 @@ class C08(Check):
                     'swap 0 1', 'asg 1 0', 'appendb 0 1', 'prependb 1 1', 'attach 1 3132333435', 'attach 0 -', 'append 0 -', 'rmback 0 0']
             out.append(Stream('scope3', small_scope_cases(3, True, core), exhaustive=True,
                               note='every history of 3 operations over a 24-operation alphabet'))
-        return out
+        # lib/vf.py gives up on a stream with more than 400 crashing cases (a broken prepend/append crashes most
+        # cases of an exhaustive stream): hand every stream over in parts of <= 300 cases
+        parts = []
+        for st in out:
+            nb = (len(st.cases) + 299) // 300
+            if nb <= 1:
+                parts.append(st)
+                continue
+            for i in range(nb):
+                parts.append(Stream('%s-%02d' % (st.name, i), st.cases[i::nb], exhaustive=st.exhaustive,
+                                    note='%s (part %d/%d)' % (st.note, i + 1, nb)))
+        return parts
 
     def nontrivial(self, case, obs):
         """measured on the implementation's own internal dump: the history must reach at least two of
@@ -467,6 +473,9 @@ class C08(Check):
     def extra_checks(self, tier, rng, ctx):
         # which proof cases the generated histories aimed at (scope: = exhaustive stream, plain = steered random streams)
         bc = self.branch_counts
+        if not bc:                      # --replay: no streams were generated
+            self.rule = self.rule_static
+            return
         hit = {}
         for lab, n in bc.items():
             core = lab[6:] if lab.startswith('scope:') else lab
